@@ -470,6 +470,7 @@ func init() {
 		c.Rule = fmt.Sprintf("exploration (race-detector stress), not proof: the %d exported methods declared on *SyncedEnforcer (%d read-lock, %d write-lock wrappers; list taken from the AST of %s at run time) are called through reflection from 16 goroutines, each with its own seeded PRNG drawing a weighted random method and arguments built per parameter type/name over a small universe (7 subjects, 3 objects, 2 actions, 2 domains, rules of the model's arity, so calls really collide on the same rules); after every call the calling goroutine deep-reads the returned values outside the lock, and re-reads a quarter of them after 1-3 further calls (aliasing of internal slices, F38 shape); %d scenarios per seed (%s): 5 random-mix scenarios of %d ms each over RBAC / RBAC-with-domains / pattern-matching role manager + keyMatch/regexMatch matcher / priority models with file and filtered-file adapters and a live auto-loader, plus first-call-after-construction rounds behind a barrier (F18 shape), concurrent LoadPolicy on a FilteredAdapter (F36 shape), readers iterating getter results against in-place writers (F38 shape) and concurrent StopAutoLoadPolicy rounds (F28 shape); run under `%s test -race`; a case is one scenario run, its observable is ok unless the segment of the output shows a data race, a concurrent-map/fatal fault, a panic escaping a wrapper, or a watchdog/timeout deadlock; non-trivial = a (scenario, method) pair that was really executed in the concurrent phase", len(specs), nR, nW, strings.Join(c12SyncedFiles, ","), len(c12Scenarios), strings.Join(c12Scenarios, ","), millis, c12GoTool)
 
 		cmdline := "GOFLAGS=-mod=mod GOPROXY=off GOSUMDB=off GOTOOLCHAIN=local " + c12GoTool + " " + strings.Join(c12TestArgs(testTimeout), " ")
+		c12TableNotes(c)
 		c.Notes = append(c.Notes, "exploration, not proof: a clean run shows no race/panic/deadlock on the explored interleavings only")
 		c.Notes = append(c.Notes, "tree under test: "+repo)
 		c.Notes = append(c.Notes, "command: "+cmdline+" (env C12_SEED, C12_MILLIS, C12_STOP_ROUNDS, C12_SCENARIO; cwd = generated module)")
